@@ -39,7 +39,10 @@ type Node struct {
 type Builder struct {
 	Form     func(n *Node, first bool) string
 	Callback func(what string)
-	Dicts    map[uintptr]*DictInfo // reflect pointer of every Dict built -> info
+	// DoSplit, when set, says for a statement node how many of its leading items are written by a Do callback
+	// (jen.Do(f) / s.Do(f) / g.Do(f)); the remaining items are chained on the statement that Do returns.  -1: no Do.
+	DoSplit func(n *Node) int
+	Dicts   map[uintptr]*DictInfo // reflect pointer of every Dict built -> info
 }
 
 type DictInfo struct {
@@ -196,16 +199,49 @@ func (a apiMissing) Error() string { return "API missing: " + a.name + " on " + 
 // Stmt builds a statement by chaining one DSL call per item. The first item may be built
 // by the package function (form "func") or by a method on an empty statement.
 func (b *Builder) Stmt(n *Node) *jen.Statement {
-	var s *jen.Statement
-	for i := 0; i < len(n.Items); i++ {
-		it := n.Items[i]
-		first := i == 0
+	if k := b.doSplit(n); k >= 0 {
+		f := func(s *jen.Statement) {
+			b.cb("Do")
+			b.stmtOn(s, n.Items[:k], false)
+		}
+		var s *jen.Statement
+		if k%2 == 0 {
+			s = jen.Do(f) // the package function
+		} else {
+			s = jen.Add().Do(f) // the method of a statement
+		}
+		return b.stmtOn(s, n.Items[k:], false)
+	}
+	return b.stmtOn(nil, n.Items, true)
+}
+
+func (b *Builder) doSplit(n *Node) int {
+	if b.DoSplit == nil || n.K != "stmt" {
+		return -1
+	}
+	k := b.DoSplit(n)
+	if k > len(n.Items) {
+		k = len(n.Items)
+	}
+	// x.Sel is one call, Dot(name): never split between the delimiter and the identifier
+	if k > 0 && k < len(n.Items) && n.Items[k-1].K == "tok" && n.Items[k-1].T == "delim" && n.Items[k-1].V == "." {
+		k++
+	}
+	return k
+}
+
+// stmtOn chains one DSL call per item on s (nil: the statement is started by the first item; atStart: the first item may
+// be built by the package function).
+func (b *Builder) stmtOn(s *jen.Statement, items []*Node, atStart bool) *jen.Statement {
+	for i := 0; i < len(items); i++ {
+		it := items[i]
+		first := i == 0 && atStart
 		// x.Sel is built with Dot(name): a "." delimiter token followed by an identifier
-		if it.K == "tok" && it.T == "delim" && it.V == "." && i+1 < len(n.Items) && n.Items[i+1].K == "tok" && n.Items[i+1].T == "id" {
+		if it.K == "tok" && it.T == "delim" && it.V == "." && i+1 < len(items) && items[i+1].K == "tok" && items[i+1].T == "id" {
 			if s == nil {
 				s = jen.Add()
 			}
-			s.Dot(n.Items[i+1].V)
+			s.Dot(items[i+1].V)
 			i++
 			continue
 		}
@@ -232,6 +268,15 @@ func (b *Builder) Stmt(n *Node) *jen.Statement {
 // GroupItem appends node it to a *Group through the Group-method form and returns the new statement.
 func (b *Builder) GroupItem(g *jen.Group, it *Node) *jen.Statement {
 	if it.K == "stmt" {
+		if k := b.doSplit(it); k >= 0 {
+			// g.Do(f): the callback writes the leading items, the rest is chained on the statement g.Do returns - which
+			// is the statement that was appended to the group
+			s := g.Do(func(s *jen.Statement) {
+				b.cb("Do")
+				b.stmtOn(s, it.Items[:k], false)
+			})
+			return b.stmtOn(s, it.Items[k:], false)
+		}
 		// first item through the group method, the rest chained on the returned statement
 		if len(it.Items) == 0 {
 			return g.Add()
